@@ -204,10 +204,12 @@ type runStats struct {
 	truncated  bool
 	crossAgree int
 	crossDis   int
+	primaryUnknown int
+	fallback   map[string]int
 }
 
 func explore(ld *loaded, entries []*ssa.Function, cfg *Config, workers int, maxPaths int) *runStats {
-	st := &runStats{entries: map[string]*entryStats{}, funcs: map[string]bool{}, stubs: map[string]int{}, initSkip: map[string]bool{}}
+	st := &runStats{entries: map[string]*entryStats{}, funcs: map[string]bool{}, stubs: map[string]int{}, initSkip: map[string]bool{}, fallback: map[string]int{}}
 	for _, e := range entries {
 		st.entries[e.Name()] = &entryStats{name: e.Name(), outcomes: map[string]int{}, reach: map[string]int{}, details: map[string]int{}}
 	}
@@ -301,7 +303,15 @@ func explore(ld *loaded, entries []*ssa.Function, cfg *Config, workers int, maxP
 				st.assertQ += ex.nAssertQ
 				st.assertUns += ex.nAssertUnsat
 				st.assertSat += ex.nAssertSat
-				st.unknown += ex.nUnknown + ex.solver.nUnknown
+				st.unknown += ex.nUnknown
+				st.primaryUnknown += ex.solver.nUnknown
+				for k, v := range ex.fallbackUsed {
+					st.fallback[k] += v
+				}
+				for _, fb := range ex.fallbacks {
+					st.queries += fb.queries
+					st.solverS += fb.dur.Seconds()
+				}
 				for f := range ex.funcsSeen {
 					st.funcs[shortFn(f.String())] = true
 				}
@@ -358,6 +368,14 @@ type replayer struct {
 func newReplayer(ov map[string][]byte) *replayer {
 	base := filepath.Join(verifDir, ".work")
 	os.MkdirAll(base, 0o755)
+	// remove scratch directories left behind by runs that were killed (older than 30 minutes)
+	if ents, err := os.ReadDir(base); err == nil {
+		for _, e := range ents {
+			if fi, err := e.Info(); err == nil && strings.HasPrefix(e.Name(), "replay-") && time.Since(fi.ModTime()) > 30*time.Minute {
+				os.RemoveAll(filepath.Join(base, e.Name()))
+			}
+		}
+	}
 	work, err := os.MkdirTemp(base, "replay-")
 	if err != nil {
 		fatalf("%v", err)
@@ -712,7 +730,11 @@ func runCheck(mode string, args []string) {
 			open[f.ID] = f
 		}
 	}
-	cfg := &Config{Tier: tierN, Solver: *solver, Timeout: *timeout, CrossSolver: *cross, MaxInstr: 3000000, MaxDepth: 220, Verbose: *verbose, OpenKnown: open}
+	ptime := 4 * time.Second
+	if tierN == 1 {
+		ptime = 30 * time.Second
+	}
+	cfg := &Config{Tier: tierN, Solver: *solver, Timeout: *timeout, PrimaryTimeout: ptime, CrossSolver: *cross, MaxInstr: 3000000, MaxDepth: 220, Verbose: *verbose, OpenKnown: open}
 	fmt.Printf("gosmt: property %s tier %s: %d entries, load+SSA %.1fs, %d workers, solver %s\n", *prop, *tier, len(entries), ld.loadS, *workers, *solver)
 	st := explore(ld, entries, cfg, *workers, *maxPaths)
 	exploreS := time.Since(t0).Seconds()
@@ -993,6 +1015,8 @@ func runCheck(mode string, args []string) {
 			"paths_aborted":          nAbort,
 			"assertion_queries_sat":  st.assertSat,
 			"solver_unknown":         st.unknown,
+			"primary_solver_unknown_retried": st.primaryUnknown,
+			"fallback_solver_answers": st.fallback,
 			"solver_queries":         st.queries,
 			"solver_seconds":         round2(st.solverS),
 			"solver":                 *solver,
@@ -1035,6 +1059,9 @@ func runCheck(mode string, args []string) {
 	}
 	if st.unknown > 0 {
 		fmt.Printf("  INCONCLUSIVE: %d solver answers were unknown/timeouts\n", st.unknown)
+	}
+	if rp != nil {
+		rp.cleanup()
 	}
 	if violations > 0 {
 		os.Exit(1)
